@@ -70,14 +70,18 @@ def run_case(c):
         import dataclasses
         nargs = len([f for f in dataclasses.fields(klass) if f.init])
         for t in DeviceType:
-            n += 1
-            try:
-                klass(t, DeviceState.ON, *(["x"] * (nargs - 2)))
-                accepted = True
-            except ValueError:
-                accepted = False
-            if accepted != (t.category.name == cat):
-                bad.append(f"{cname}({t.name}) accepted={accepted}")
+            # the guard depends on the device type alone: ordinary readings, boundary readings (zero, empty, None) and mixtures
+            fillers = [["x"] * (nargs - 2), [0] * (nargs - 2), [""] * (nargs - 2), [None] * (nargs - 2), [0.0] * (nargs - 2)]
+            fillers += [[(0 if j == k else "x") for j in range(nargs - 2)] for k in range(nargs - 2)]
+            for fill in fillers:
+                n += 1
+                try:
+                    klass(t, DeviceState.ON, *fill)
+                    accepted = True
+                except ValueError:
+                    accepted = False
+                if accepted != (t.category.name == cat):
+                    bad.append(f"{cname}({t.name}, fields={fill!r}) accepted={accepted}")
     codes = [t.hex_rep.lower() for t in DeviceType]
     for t in DeviceType:
         n += 1
